@@ -23,6 +23,26 @@ CLAIMED = {
    technique="exhaustive damage enumeration (every truncation offset, every single-byte overwrite x 5 value classes) over recorded logs, recovery run on the real WAL reader and engine",
    text="For 8 base logs every truncation offset of the newest file and every single-byte overwrite (5 value classes) is applied; ReplayWALDir must deliver a subsequence of the appended entries (all four fields equal) containing every entry completely written before the first damaged byte and every entry of older files; the real engine must open, show those entries and nothing that was never written, keep the log files, accept two writes and show old and new data after a clean close and a second recovery.",
    note="Trusted: an independent parser of the undamaged file supplies record boundaries. Single damage per log; files > 4 KiB use header/boundary/stride positions."),
+ "C01": dict(
+   level="model_checking", design="§3 C01, §2.4",
+   technique="explicit-state search over operation programs on the real engine (deterministic controlled scheduler, state de-duplication by canonical implementation state) against a map reference model",
+   text="All programs up to depth 4-5 (5-6 thorough) over {put, delete, 3-key commit, delete+put commit, rollback, flush, background-flush-to-quiescence, reopen, compact, compact-range} x 4-5 configurations that move data between active table, immutable tables and SSTables at different moments are executed on the real EngineFacade; after each program every key (incl. a binary key and a never-written key) is read and compared with the model. A value-shape sub-run pushes empty, nil, 1 B, one-record, fragmented, multi-block values and a 4 KiB key through all maintenance sequences of length <= 3.",
+   note="Trusted: the controlled scheduler runs background threads only at explicit bg steps or when the client waits (one legal schedule; others are C06). State key soundness argued in DESIGN §2.4. Bounds: depth, 3 keys."),
+ "C02": dict(
+   level="fault_enumeration", design="§3 C02, §2.3",
+   technique="exhaustive crash-point and torn-write enumeration over the recorded file-system call log of every explored program; each crash state recovered by the real engine and compared with the admissible history prefixes",
+   text="For every program of the explicit-state search (depth 3-4 quick, 4-5 thorough; sync immediate/none/batch; memtable 32 MiB / 1 B, max memtables 2-4) every prefix of the file-system call log inside the last operation and every torn variant of each write is materialised and opened with the real engine: the recovered state must equal the model after an admissible number of operations (acknowledged..issued with synchronous logging, any prefix otherwise; a transaction is one operation), opening must succeed, and after 2 more writes, a clean close and a reopen state and sequence stamps must continue correctly.",
+   note="Process-death crash model (completed writes survive; fsync irrelevant; power loss not modelled). One open known finding (torn write inside a batch) is listed in known_findings.jsonl."),
+ "C05": dict(
+   level="model_checking", design="§3 C05",
+   technique="exhaustive enumeration of layer arrangements x stack shapes on the real engine, each checked with a complete scan/seek/range/filter suite against a sorted-map model",
+   text="Every assignment {absent,value,tombstone} of keys x layers (729+729 quick, 19683 thorough) is built oldest-first in 7 layer-stack shapes (memtable, immutables, SSTables, after reopen, SSTables only with retired logs) on the real engine; on each the full scan, Seek to 7 targets + iteration, SeekToLast, all ranges over those bounds (SeekToFirst/Seek/SeekToLast), prefix/suffix filters, and the same inside read-write transactions with 5 overlays and a read-only transaction must equal the model. Physical shapes (17/33/40/120 keys, 3-block tables) are scanned purely from SSTables with seeks to every key and gap.",
+   note="Layer boundaries forced through an export hook that calls the engine's own scheduleFlush; concurrent-scan clause is covered by C18's iterator scenarios and the C06 harness family."),
+ "C08": dict(
+   level="model_checking", design="§3 C08",
+   technique="explicit-state search over write/flush/restart programs on the real engine; oracle on the log read back and on the reported last sequence after every step",
+   text="All programs up to depth 5-6 (6-7 thorough) over {put, delete, 3-entry and 1-entry commits, flush, bg, reopen} x configurations: the reported last sequence never decreases (also across reopen), the log directory read back holds exactly the program's writes in issue order, each stamped strictly higher than every earlier write, batch entries stamped alike. After crash recovery the same stamp rule is applied by C02's continuation step.",
+   note="Stamps are read from the log (what replication ships)."),
 }
 
 ALL = ["C%02d" % i for i in range(1, 21)]
